@@ -350,7 +350,9 @@ func monitor(c hxlib.Case, outs []string) (vs []hxlib.Violation) {
 				// task like any other: the next one is due only after it returned, was cancelled or exceeded the
 				// execution-wait limit. One class is the recorded finding: the direct start took its slot only after the
 				// queue handler had found all slots free (between the handler's slot check and its pick).
-				if zeroSince >= 0 && (q.spawnIdx < 0 || q.spawnIdx > zeroSince) {
+				// (a trace that does not show the handler entering its wait before this pick — it did so before the
+				// recording began — cannot tell the two apart and is read in the implementation's favour)
+				if !waitSeen || zeroSince >= 0 && (q.spawnIdx < 0 || q.spawnIdx > zeroSince) {
 					add(sigPickRaced, fmt.Sprintf("queue handler picked task %d while task %d, a waiting task started directly by the schedule handler (event %d), still runs, is not cancelled and is within the execution-wait limit; the direct start took its queue slot (event %d, -1 = not yet) after the queue handler had found every slot free (event %d) and before it picked", k, q.t, q.startLine, q.spawnIdx, zeroSince), i)
 				} else {
 					add("C07:queue-not-serial", fmt.Sprintf("queue handler picked task %d while task %d — a waiting task that the schedule handler started directly before (event %d, queue slot reported as taken at event %d) — still runs, is not cancelled and is within the execution-wait limit; since that start no moment without a started, unreturned task was seen (the queue handler entered its wait after it, or a task ahead returned after it)", k, q.t, q.startLine, q.spawnIdx), i)
